@@ -1,7 +1,73 @@
-(* C04 — built-in base types convert text to values faithfully (work in progress). *)
-From TxV Require Import Core.Base Model.Rx Gen.SrcRegex Gen.SrcBaseConv Model.BaseTypes.
+(* C04 — built-in base types convert text to values faithfully.
 
-Example C04_nonvacuous_string :
-  load_many (src_env ascii_only) TSTRING [34;97;92;34;98;34;32;39;99;39;10]%N = Some [VStr [97;34;98]%N; VStr [99]%N].
-Proof. vm_compute. reflexivity. Qed.
-Print Assumptions C04_nonvacuous_string.
+   The regexes (rx_INT, rx_STRING, ...) are Gen/SrcRegex.v, regenerated from textx/lang.py through
+   Python's own regex parser on every run; the conversion data (conv_string_test, conv_bool_exact, ...) are
+   Gen/SrcBaseConv.v, regenerated from the processor lambdas of textx/metamodel.py.  `src_env u` is
+   the flag set Arpeggio compiles them with (re.MULTILINE), for ANY classification u of the
+   non-ASCII code points.  bt_match / convert / load_many are Model/BaseTypes.v (what a rule
+   matches at a position, the default processor, the loop of `Model: v*=T;`).  The writing side
+   (quote, dec_text, float_chars, bool_spellings) is Model/BaseLits.v. *)
+From TxV Require Import Core.Base Model.Rx Gen.SrcRegex Gen.SrcBaseConv Model.BaseTypes Model.BaseLits
+  Proofs.RxProofs Proofs.BaseTypesProofs.
+
+(* ---- STRING.  Any strings that do not end in a backslash, each written between either quote
+   character with only that quote escaped, separated by any (possibly empty) whitespace, on one line
+   or several: loading `Model: v*=STRING;` returns exactly those strings. *)
+Theorem C04_string_roundtrip : forall u (items : list (N * list N * list N)) (w0 : list N),
+  (forall it, In it items -> str_item_ok it) -> forallb is_ws w0 = true ->
+  load_many (src_env u) TSTRING (w0 ++ str_items_text items)
+  = Some (map (fun it => match it with (_, s, _) => VStr s end) items).
+Proof. exact string_roundtrip. Qed.
+Print Assumptions C04_string_roundtrip.
+
+(* the regex stops exactly at the closing quote whatever precedes and follows, and the processor
+   gives the string back *)
+Theorem C04_string_extent : forall u q s pre rest,
+  q = 34%N \/ q = 39%N -> ends_with_bs s = false ->
+  rx_match (src_env u) rx_STRING pre (quote q s ++ rest) = Some (length (quote q s))
+  /\ string_conv (quote q s) = s.
+Proof. intros u q s pre rest Hq Hbs. split; [apply string_match; assumption | apply string_conv_quote; exact Hq]. Qed.
+Print Assumptions C04_string_extent.
+
+Example C04_string_nonvacuous :
+  str_item_ok (34%N, [97; 92; 34; 39; 98]%N, [32]%N) /\
+  load_many (src_env ascii_only) TSTRING (str_items_text [(34%N, [97; 92; 34; 39; 98]%N, [32]%N); (39%N, [39; 34]%N, [])])
+  = Some [VStr [97; 92; 34; 39; 98]%N; VStr [39; 34]%N].
+Proof. vm_compute. repeat split; auto. Qed.
+Print Assumptions C04_string_nonvacuous.
+
+(* the hypothesis is needed: a string ending in a backslash, followed by another string, is not read back *)
+Example C04_string_trailing_backslash :
+  ends_with_bs [97; 92]%N = true /\
+  load_many (src_env ascii_only) TSTRING (quote 34 [97; 92]%N ++ [32]%N ++ quote 34 [98]%N) = None.
+Proof. vm_compute. split; reflexivity. Qed.
+Print Assumptions C04_string_trailing_backslash.
+
+(* ---- INT.  Every integer, written in decimal, followed by anything that is not a digit, is matched
+   in full by INT and converted to the same integer. *)
+Theorem C04_int_roundtrip : forall u (z : Z) pre rest,
+  not_digit_next rest ->
+  bt_match (src_env u) TINT pre (dec_text z ++ rest) = Some (TINT, length (dec_text z))
+  /\ convert TINT (dec_text z) = VInt z.
+Proof. exact int_roundtrip. Qed.
+Print Assumptions C04_int_roundtrip.
+
+Example C04_int_nonvacuous :
+  dec_text (-1205) = [45; 49; 50; 48; 53]%N /\ not_digit_next [32; 55]%N /\
+  load_many (src_env ascii_only) TINT ([45; 49; 50; 48; 53] ++ [32; 55])%N = Some [VInt (-1205); VInt 7].
+Proof. vm_compute. repeat split; reflexivity. Qed.
+Print Assumptions C04_int_nonvacuous.
+
+(* ---- BOOL.  Each of the six spellings, followed by nothing or a non-word character, is matched in
+   full and converted to the boolean it stands for. *)
+Theorem C04_bool : forall u sp b pre rest,
+  In (sp, b) bool_spellings -> not_word_next (src_env u) rest ->
+  bt_match (src_env u) TBOOL pre (sp ++ rest) = Some (TBOOL, length sp) /\ convert TBOOL sp = VBool b.
+Proof. exact bool_roundtrip. Qed.
+Print Assumptions C04_bool.
+
+Example C04_bool_nonvacuous :
+  In ([70; 97; 108; 115; 101]%N, false) bool_spellings /\
+  load_many (src_env ascii_only) TBOOL [70; 97; 108; 115; 101; 32; 49]%N = Some [VBool false; VBool true].
+Proof. vm_compute. split; [right; right; left; reflexivity | reflexivity]. Qed.
+Print Assumptions C04_bool_nonvacuous.
